@@ -109,3 +109,101 @@ def run(ctx, rep):
     P.complete_forward(rep, lib)
     P.complete_once(rep, lib)
     P.go_protocol(rep, lib)
+    collect_scenarios(rep, lib)
+    P.limiter_machine(rep, lib, rid="C09-LIMITER-MACHINE")
+
+
+def collect_scenarios(rep, lib):
+    """What the collecting stages store per row, by partial evaluation with the key lookup seeded."""
+    from lib.machine import run_method
+    from lib.peval import some, NONE
+    r = rep.rule("C09-COLLECT", "GrouperProcess::process stores a row exactly when the group key is a string: once, as "
+                 "Context::build(row), appended to the entry of that very key in an insertion-ordered map; rows whose "
+                 "key is absent, null, a number, a boolean, an array or an object are dropped and nothing is stored; "
+                 "Merger::process stores every row once; both always answer Continue; complete() reads the stored "
+                 "collection front to back", floor=9,
+                 analysis="A5 partial evaluation of process() (following local &self helpers) with the key getter's "
+                          "answer seeded to each JSON kind; A1 callee census of the container operations")
+    jv = lib.adts.get("json_value::JsonValue")
+    dec = lib.adts.get("processor::ProcessDesision")
+    if not jv or not dec:
+        r.missing("JsonValue / ProcessDesision")
+        return
+    vn = [v["name"] for v in jv["variants"]]
+    CONT = OK(("adt", [v["name"] for v in dec["variants"]].index("Continue"), ()))
+    BUILT = ("tok", "built-row")
+    KEY = ("tok", "the-key-string")
+    for struct in COLLECT:
+        st = [s for s in common.stages(lib) if s.struct == struct]
+        if not st or "process" not in st[0].bodies:
+            r.missing(struct + "::process")
+            continue
+        st = st[0]
+        b = st.bodies["process"]
+        nfields = len(st.fields)
+        kinds = [("absent", NONE)]
+        for name in vn:
+            payload = () if name == "Null" else ((KEY,) if name == "String" else (None,))
+            kinds.append((name, some(("adt", vn.index(name), payload))))
+        if struct.endswith("Merger"):
+            kinds = [("any row", None)]
+        for label, answer in kinds:
+            ev = []
+
+            def model(c, av, envv, pe, answer=answer):
+                n = c.name or ""
+                if c.trait == common.GET_TRAIT:
+                    return (True, answer)
+                if n == "processor::Context::build":
+                    ev.append(("build",))
+                    return (True, BUILT)
+                if "IndexMap" in n and n.endswith("::entry"):
+                    ev.append(("entry", pe._deref_all(envv, av[1]) if len(av) > 1 else None))
+                    return (True, ("tok", "entry"))
+                if n.endswith("Entry::<'a, K, V>::or_default") or n.endswith("::or_default") or n.endswith("::or_insert_with"):
+                    return (True, ("tok", "bucket"))
+                if n.endswith("Vec::<T, A>::push") or n.endswith("Vec::<T>::push"):
+                    ev.append(("push", pe._deref_all(envv, av[1]) if len(av) > 1 else None))
+                    return (True, ("adt", 0, ()))
+                if "IndexMap" in n and n.endswith("::insert"):
+                    ev.append(("insert", pe._deref_all(envv, av[1]) if len(av) > 1 else None))
+                    return (True, NONE)
+                return None
+            try:
+                outs = run_method(lib, b, ("adt", 0, tuple([None] * nfields)), model, eq_ok=common.derived_eq_ok(lib))
+            except RuntimeError:
+                outs = []
+            key = "%s::process[key %s]" % (st.short, label) if struct.endswith("GrouperProcess") else \
+                "%s::process[%s]" % (st.short, label)
+            rets = {rv for _, rv in outs}
+            stores = [e for e in ev if e[0] in ("push", "insert")]
+            want_store = struct.endswith("Merger") or label == "String"
+            problem = None
+            if not outs or rets != {CONT}:
+                problem = "does not always answer Ok(Continue) (%s)" % sorted(map(str, rets))[:2]
+            elif want_store:
+                if len(stores) != 1 or stores[0][1] != BUILT or ev.count(("build",)) != 1:
+                    problem = "the row is not stored exactly once as Context::build(row): events %s" % ev
+                elif struct.endswith("GrouperProcess"):
+                    ents = [e for e in ev if e[0] == "entry"]
+                    if len(ents) != 1 or ents[0][1] != KEY:
+                        problem = "the row is not appended to the entry of its own key string: events %s" % ev
+            elif stores or any(e[0] == "entry" for e in ev):
+                problem = "a row whose key is %s is stored (it must be dropped)" % label
+            if problem:
+                r.bad(key, problem, b.where())
+            else:
+                r.ok(key, "stored once under its key" if want_store and struct.endswith("GrouperProcess")
+                     else ("stored once" if want_store else "dropped"), b.where())
+        # complete() walks the stored collection front to back
+        cb = st.bodies.get("complete")
+        if cb is not None:
+            from rules.progress_rules import loop_driver, iter_type
+            tys = []
+            for h, blocks in cb.loops().items():
+                tys += [iter_type(c) for c in loop_driver(cb, blocks, h)]
+            if tys and all(t and "Rev<" not in t and ("indexmap::map::Iter" in t or "std::slice::Iter" in t) for t in tys):
+                r.ok(st.short + "::complete#order", "forward iteration (%s)" % tys[0][:60], cb.where(), nontrivial=False)
+            else:
+                r.bad(st.short + "::complete#order", "the stored rows are not read front to back by a plain forward "
+                      "iterator: %s" % tys, cb.where())
